@@ -116,6 +116,13 @@ impl View for WireScanRequest {
     type V = WireScanRequestV;
     open spec fn view(&self) -> WireScanRequestV { WireScanRequestV { log_type: oview(self.log_type), limit: self.limit, offset: self.offset } }
 }
+impl WireScanRequest {
+    /// getter generated by derive(::prost::Message) for the `optional uint32 limit` field
+    /// (prost-derive-0.13 src/lib.rs: "Returns the value of `limit`, or the default value if `limit` is unset.")
+    pub fn limit(&self) -> (r: u32)
+        ensures r == (match self.limit { Some(v) => v, None => 0u32 }),
+    { match self.limit { Some(v) => v, None => 0u32 } }
+}
 /// message WireScanResponse
 pub struct WireScanResponse { pub first_proof: Option<WireCommitProof>, pub proofs: Vec<WireCommitProof>, pub offset: u64 }
 pub ghost struct WireScanResponseV { pub first_proof: Option<WireCommitProofV>, pub proofs: Seq<WireCommitProofV>, pub offset: u64 }
@@ -558,6 +565,23 @@ impl vstd::std_specs::convert::TryFromSpecImpl<i32> for WireEventLogTypeSystem {
     open spec fn obeys_try_from_spec() -> bool { false }
     open spec fn try_from_spec(v: i32) -> core::result::Result<Self, Self::Error> { arbitrary() }
 }
+/// derive(::prost::Enumeration) also generates `E::is_valid(i32)` and `impl From<E> for i32`
+/// (prost-derive-0.13 src/lib.rs: is_valid = one of the declared discriminants; from = `value as i32`)
+impl WireEventLogTypeSystem {
+    pub fn is_valid(value: i32) -> (b: bool)
+        ensures b == (0 <= value <= 3),
+    { 0 <= value && value <= 3 }
+}
+impl core::convert::From<WireEventLogTypeSystem> for i32 {
+    #[verifier::external_body]
+    fn from(s: WireEventLogTypeSystem) -> (r: i32)
+        ensures r == system_tag(s),
+    { unimplemented!() }
+}
+impl vstd::std_specs::convert::FromSpecImpl<WireEventLogTypeSystem> for i32 {
+    open spec fn obeys_from_spec() -> bool { false }
+    open spec fn from_spec(v: WireEventLogTypeSystem) -> i32 { arbitrary() }
+}
 /// `E as i32` of the generated #[repr(i32)] enum (Verus has no enum casts)
 #[verifier::external_body]
 pub fn system_as_i32(s: WireEventLogTypeSystem) -> (r: i32)
@@ -644,6 +668,41 @@ pub fn vmap_usize_u64(v: Vec<usize>) -> (r: Vec<u64>)
         invariant it.seq() == v@, out@.len() == it.index@,
             forall|i: int| 0 <= i < it.index@ ==> out@[i] == v@[i] as u64,
     { out.push(x as u64); }
+    proof { assert(out@ =~= seq_u64_of(v@)); }
+    out
+}
+/// `v.into_iter().map(f).collect()` where the closure `f` (the repository's text, with the
+/// `ensures w == i as usize` woven in by the R12 rewrite) is an element-wise cast (verified, not assumed)
+pub fn vmap_u64_usize_with<F: Fn(u64) -> usize>(v: Vec<u64>, f: F) -> (r: Vec<usize>)
+    requires
+        forall|a: u64| call_requires(f, (a,)),
+        forall|a: u64, b: usize| call_ensures(f, (a,), b) ==> b == a as usize,
+    ensures r@ == seq_usize_of(v@),
+{
+    let mut out: Vec<usize> = Vec::new();
+    for x in it: v
+        invariant it.seq() == v@, out@.len() == it.index@,
+            forall|a: u64| call_requires(f, (a,)),
+            forall|a: u64, b: usize| call_ensures(f, (a,), b) ==> b == a as usize,
+            forall|i: int| 0 <= i < it.index@ ==> out@[i] == v@[i] as usize,
+    { out.push(f(x)); }
+    proof { assert(out@ =~= seq_usize_of(v@)); }
+    out
+}
+/// the same for an element-wise cast closure usize -> u64 (verified, not assumed)
+pub fn vmap_usize_u64_with<F: Fn(usize) -> u64>(v: Vec<usize>, f: F) -> (r: Vec<u64>)
+    requires
+        forall|a: usize| call_requires(f, (a,)),
+        forall|a: usize, b: u64| call_ensures(f, (a,), b) ==> b == a as u64,
+    ensures r@ == seq_u64_of(v@),
+{
+    let mut out: Vec<u64> = Vec::new();
+    for x in it: v
+        invariant it.seq() == v@, out@.len() == it.index@,
+            forall|a: usize| call_requires(f, (a,)),
+            forall|a: usize, b: u64| call_ensures(f, (a,), b) ==> b == a as u64,
+            forall|i: int| 0 <= i < it.index@ ==> out@[i] == v@[i] as u64,
+    { out.push(f(x)); }
     proof { assert(out@ =~= seq_u64_of(v@)); }
     out
 }
